@@ -168,3 +168,14 @@ def Env.linksSym (env : Env) : Prop :=
   ∀ a b, a ∈ (env.info b).preds ↔ b ∈ (env.info a).succs
 
 end Pj
+
+namespace Pj
+
+/-- the children lists agree with the parent pointers (the other direction of C01's `listed` clause) -/
+def Env.childrenOK (env : Env) : Prop :=
+  ∀ t c, t ∈ memberList env → c ∈ (env.info t).children → (env.info c).parent = some t
+
+/-- every member appears once in the depth-first list (forest: each child listed once, under one parent) -/
+def Env.membersNodup (env : Env) : Prop := (memberList env).Nodup
+
+end Pj
